@@ -234,6 +234,11 @@ func run(cfg runConfig) (*runResult, error) {
 		}
 		res.sel = selectFor(cfg.prop, props[cfg.prop], db, fns, lr, cfg.repo, cfg.tier == "thorough" || os.Getenv("VCGO_ANCHORS_ONLY") == "")
 		keys = res.sel.keys
+		if os.Getenv("VCGO_PRINT_SEL") != "" {
+			for _, k := range keys {
+				fmt.Println("SELECTED", shortKeyName(k))
+			}
+		}
 		cfg.props = nil
 		res.uncontracted = uncontractedExported(props[cfg.prop], db, fns, lr, cfg.repo)
 	} else {
